@@ -95,6 +95,9 @@ type Axiom struct {
 	Src     string
 	PkgPath string
 	Imports map[string]string
+	// Props: `axiom[C14,C16] name: expr` — a background-theory axiom that is part of the check of these properties only
+	// (nil: every property). Keeps module-specific theories out of the proofs of unrelated properties.
+	Props map[string]bool
 }
 
 type SpecDB struct {
@@ -289,6 +292,14 @@ func (db *SpecDB) parseSpecFile(file string, pkgPath string) {
 			}
 			cur, curLoop = nil, nil
 		case "axiom":
+			var axProps map[string]bool
+			if m := labelRe.FindStringSubmatch(rest); m != nil {
+				axProps = map[string]bool{}
+				for _, l := range strings.Split(m[1], ",") {
+					axProps[strings.TrimSpace(l)] = true
+				}
+				rest = strings.TrimSpace(rest[len(m[0]):])
+			}
 			i := strings.Index(rest, ":")
 			if i < 0 {
 				errf(en.ln, "axiom needs a name")
@@ -299,7 +310,7 @@ func (db *SpecDB) parseSpecFile(file string, pkgPath string) {
 				errf(en.ln, "%v", err)
 				continue
 			}
-			db.Axioms = append(db.Axioms, &Axiom{strings.TrimSpace(rest[:i]), e, rest[i+1:], pkgPath, copyMap(imports)})
+			db.Axioms = append(db.Axioms, &Axiom{strings.TrimSpace(rest[:i]), e, rest[i+1:], pkgPath, copyMap(imports), axProps})
 			cur, curLoop = nil, nil
 		case "func", "functype":
 			c := &Contract{File: file, Line: en.ln, PkgPath: pkgPath, Imports: copyMap(imports), SigSrc: body, Loops: map[int]*LoopSpec{}, Props: map[string]bool{}, CallAsserts: map[string][]*Clause{}}
